@@ -122,6 +122,30 @@ Definition titem_ok (x : titem) : bool :=
 Definition own_single (st : stage) (ee : bool) : bool :=
   let '(kind, b, _, _, _) := st in String.eqb kind "Single" && String.eqb b (ttt_tag ee).
 
+(* per-event blocks with the signature tags *)
+Definition ev_keys : list string := keys_of KEvent ++ ["SIGNATURE"; "SIGNATUREWITHDEFAULTS"].
+Definition ev_line_ok (l : uline) : bool :=
+  body_line_ok ev_keys l
+  && match sig_kind l with
+     | None => forallb (closed_seg (keys_of KEvent)) l
+     | Some d => negb (mentions (sig_key (negb d)) l)
+     end.
+(* per (template, events, oracle): the line after the name tags is what the engine's tests take it for, the signature carries no '<' '>',
+   the result is neither blank nor tagged *)
+Definition ev_block_wf (sigs : list (string * (string * string))) (items : list string) (body : list uline) : bool :=
+  forallb (fun ix =>
+     forallb (fun kv => no_lg (snd kv)) (elem_table (snd ix) (fst ix))
+     && forallb (fun l =>
+          let nl := render_line (map (subst16 (elem_table (snd ix) (fst ix))) l) in
+          let out := ref_ev_line sigs (snd ix) (fst ix) l in
+          match sig_kind l with
+          | None => true
+          | Some d => hasSpecificTag nl (stag "__TAG_SIGNATURE__") && negb (hasDefault nl)
+                      && Bool.eqb (contains (stag "__TAG_SIGNATURE_DEF__") nl) d && no_lg (sigof sigs (snd ix) d)
+          end
+          && negb (isspace out) && negb (unmodelled out) && no3 out) body)
+    (enumerate_from 0 items).
+
 Definition msg_keys : list string := keys_of KMsg ++ ["MSGID"].
 
 Definition init_keys : list string := ["STATE_0"; "state_0"].
@@ -139,6 +163,9 @@ Definition item16_ok (it : item16) : bool :=
   | TransBlock ib ie body =>
       block_lines_ok pst_tags (ib ++ begin_line "PER_STATETRANSITION")%string (ie ++ end_line "PER_STATETRANSITION")%string
       && forallb titem_ok body
+  | EvBlock ib ie body =>
+      block_lines_ok (stage_tags KEvent) (ib ++ begin_line "PER_EVENT")%string (ie ++ end_line "PER_EVENT")%string
+      && forallb ev_line_ok body
   | MsgBlock ib ie sfx body =>
       block_lines_ok (stage_tags KMsg) (ib ++ begin_line "PER_MSG")%string (ie ++ "<<<PER_MSG_END>>>" ++ sfx ++ nl_str)%string
       && forallb (body_line_ok msg_keys) body
@@ -177,6 +204,7 @@ Definition item16_wf (e : elements) (it : item16) : bool :=
   | Block k _ _ body => block_wf (table_of_kind k) (items_of e k) body
   | SigBlock _ _ body => block_wf sig_table (el_sigs e) body
   | TransBlock _ _ _ => tps_wf (el_tps e)
+  | EvBlock _ _ body => ev_block_wf (el_evsigs e) (el_events e) body
   | MsgBlock _ _ _ body => forallb (fun n => mem String.eqb n (el_msgids e)) (el_msgs e) && block_wf (msg_table (el_msgids e)) (el_msgs e) body
   | InitLine _ => forallb (fun kv => no_lg (snd kv)) (init_table (el_first e))
   | UserLine l => for_plain (ref_line (el_user e) l)
@@ -196,7 +224,7 @@ Definition no_user_lines (t : template16) : bool := forallb (fun it => match it 
 Definition elements_of_model (m : smodel) : elements :=
   {| el_states := sm_states m; el_events := sm_events m; el_actions := sm_actions m; el_guards := sm_guards m;
      el_sigs := map snd (sm_actionsigs m);
-     el_structs := if_structs m; el_protos := if_protos m; el_msgs := if_msgs m; el_tps := sm_tps m; el_first := sm_first m; el_rows := sm_rows m; el_user := []; el_msgids := if_msgids m |}.
+     el_structs := if_structs m; el_protos := if_protos m; el_msgs := if_msgs m; el_tps := sm_tps m; el_first := sm_first m; el_rows := sm_rows m; el_user := []; el_msgids := if_msgids m; el_evsigs := if_sigs m |}.
 
 Definition engine16 (m : smodel) (dict : list (string * string)) (t : template16) : option string :=
   generate_file m dict [] (render16 t).
